@@ -28,7 +28,7 @@ def errS : Err → Text
   | .notDevice => T "ENOTDEV" | .closed => T "ECLOSED" | .invalid => T "EINVAL"
   | .whence => T "EWHENCE" | .notWrite => T "ENOTWRITE" | .conflictNoTe => T "ECONFLICT-NOTE"
   | .conflictSum => T "ECONFLICT-SUM" | .fileConflict => T "EFILECONFLICT"
-  | .nilChecksum => T "ENILSUM" | .unsupported => T "EUNSUPPORTED"
+  | .nilChecksum => T "ENILSUM" | .unsupported => T "EUNSUPPORTED" | .perm => T "EPERM"
 
 def sepJoin (sep : Text) (l : List Text) : Text := joinWith sep l
 
@@ -178,6 +178,18 @@ def subCall (c : Cfg) (st : St) (p : Text) : St × Text :=
     | .error e => (st, errS e)
     | .ok i => if !(st.fs.node i).dir then (st, T "ENOTDIR") else ({ st with sub := some full }, T "ok")
 
+def visitS (v : Visit) : Text :=
+  match v.err with
+  | some e => hex v.path ++ T "!" ++ errS e
+  | none => hex v.path ++ (if v.isDir then T "/" else [])
+
+/-- `fs.WalkDir(view, root, …)`: every callback, or `HANG` when the walk never returns -/
+def walkCall (c : Cfg) (st : St) (p : Text) : Text :=
+  let tr : Text → Text := match st.sub with | none => id | some r => join2 r
+  match walkDirOp c st.fs tr p with
+  | none => T "HANG"
+  | some vs => T "w" ++ sepJoin (T "+") (vs.map visitS)
+
 def runToks (c : Cfg) (verbose : Bool) : List String → St → List Text → List Text × St
   | [], st, acc => (acc.reverse, st)
   | tok :: rest, st, acc =>
@@ -185,6 +197,9 @@ def runToks (c : Cfg) (verbose : Bool) : List String → St → List Text → Li
     | ["sub", p] =>
       let (st1, r) := subCall c st (ux p)
       runToks c verbose rest st1 ((r ++ T "~" ++ (if verbose then dump st1.fs else fnv (dump st1.fs))) :: acc)
+    | ["walk", p] =>
+      let r := walkCall c st (ux p)
+      runToks c verbose rest st ((r ++ T "~" ++ (if verbose then dump st.fs else fnv (dump st.fs))) :: acc)
     | _ =>
       match parseOp tok with
       | none => runToks c verbose rest st (T "bad-op" :: acc)
